@@ -135,6 +135,7 @@ func runCheck(id, tier string) int {
 		rpc <- rpRes{rp, err}
 	}()
 
+	xcheckOn = tier == "thorough" || os.Getenv("VERIF_XCHECK") != ""
 	var rp *replayer
 	var results []*JobResult
 	for i := range jobs {
@@ -190,9 +191,9 @@ func runCheck(id, tier string) int {
 	nViol := 0
 	knownSeen := map[string]bool{}
 	var violLines []string
-	os.MkdirAll(filepath.Join(verifDir, "evidence", "replay"), 0o755)
+	os.MkdirAll(filepath.Join(evidenceBase(), "evidence", "replay"), 0o755)
 	// stale counterexample files of this property are removed: the directory reflects the last run
-	if old, _ := filepath.Glob(filepath.Join(verifDir, "evidence", "replay", id+"-*.json")); old != nil {
+	if old, _ := filepath.Glob(filepath.Join(evidenceBase(), "evidence", "replay", id+"-*.json")); old != nil {
 		for _, f := range old {
 			os.Remove(f)
 		}
@@ -205,22 +206,22 @@ func runCheck(id, tier string) int {
 		}
 		m.Property, m.Assertion, m.Job, m.Files = id, aid, j.Name, c.Files
 		cexN++
-		p := filepath.Join(verifDir, "evidence", "replay", fmt.Sprintf("%s-%d.json", id, cexN))
+		p := filepath.Join(evidenceBase(), "evidence", "replay", fmt.Sprintf("%s-%d.json", id, cexN))
 		b, _ := json.MarshalIndent(m, "", " ")
 		os.WriteFile(p, b, 0o644)
 		return p
 	}
 
 	witnessPerJob := 3
-	cexPerID := 3
+	cexPerID := 6
 	if tier == "thorough" {
 		witnessPerJob = 10
-		cexPerID = 5
+		cexPerID = 10
 	}
 	var sampleOut []any
 	for _, res := range results {
 		j := res.Job
-		if len(res.MissingReach) > 0 {
+		if len(res.MissingReach) > 0 && len(res.Violations) == 0 {
 			fmt.Printf("MACHINERY-FAILURE property=%s job %s never reached %v (vacuous harness)\n", id, j.Name, res.MissingReach)
 			machinery = true
 		}
@@ -280,7 +281,16 @@ func runCheck(id, tier string) int {
 			confirmed := false
 			var cexPath string
 			tried := 0
-			for _, v := range vs {
+			// candidates are spread over the list (different paths = different shapes / classes of names), not the first few
+			cand := vs
+			if len(vs) > cexPerID {
+				cand = nil
+				step := float64(len(vs)) / float64(cexPerID)
+				for k := 0; k < cexPerID; k++ {
+					cand = append(cand, vs[int(float64(k)*step)])
+				}
+			}
+			for _, v := range cand {
 				if tried >= cexPerID {
 					break
 				}
@@ -413,6 +423,18 @@ func runCheck(id, tier string) int {
 	cov["queries"] = queries
 	cov["solver_time_s"] = round1(solverSec)
 	cov["solver_versions"] = map[string]string{"strings_and_ints": "z3-new (Z3 5.1.0)", "bit_vectors": "z3 (Z3 4.8.12)"}
+	if xcheckOn {
+		nq, ans, bad, notes := xcheckRun()
+		cov["cross_solver"] = map[string]any{"queries_sampled": nq, "answers_by_second_solvers": ans, "disagreements": bad,
+			"solvers": "String/Int queries: z3 5.1 primary, re-decided by z3 4.8.12 and cvc5 1.0; bit-vector queries: z3 4.8.12 primary, re-decided by z3 5.1 and cvc5 1.0 (fresh process per query)"}
+		fmt.Printf("  cross-solver check: %d sampled queries, %d answers by the second solvers, %d disagreements\n", nq, ans, bad)
+		for _, n := range notes {
+			fmt.Printf("  CROSS-SOLVER DISAGREEMENT %s\n", n)
+		}
+		if bad > 0 {
+			machinery = true
+		}
+	}
 	cov["functions_encoded"] = sortedSet(funcs)
 	cov["stubs_used"] = sortedSet(stubs)
 	cov["jobs"] = jobsOut
@@ -424,8 +446,8 @@ func runCheck(id, tier string) int {
 	cov["explanation"] = "bounded symbolic execution of the SSA of /repo's working tree (regenerated this run); states = completed symbolic paths, transitions = solver-decided branch decisions; every assertion is discharged by an unsat answer for PC ∧ ¬assertion or reported with a model that is replayed on the real build"
 	ev := evidence{PropertyID: id, Tier: tier, Seed: seed, Level: "model_checking", Coverage: cov, Assumptions: c.Assume, WallS: round1(time.Since(t0).Seconds()), Violations: nViol}
 	b, _ := json.MarshalIndent(ev, "", " ")
-	os.MkdirAll(filepath.Join(verifDir, "evidence"), 0o755)
-	if err := os.WriteFile(filepath.Join(verifDir, "evidence", id+".json"), b, 0o644); err != nil {
+	os.MkdirAll(filepath.Join(evidenceBase(), "evidence"), 0o755)
+	if err := os.WriteFile(filepath.Join(evidenceBase(), "evidence", id+".json"), b, 0o644); err != nil {
 		fmt.Fprintln(os.Stderr, err)
 		return 2
 	}
@@ -438,7 +460,8 @@ func runCheck(id, tier string) int {
 		return 2
 	}
 	if unk > 0 || unsup > 0 {
-		fmt.Printf("NOTE property=%s: %d inconclusive obligations, %d unsupported paths (not counted as discharged; see evidence)\n", id, unk, unsup)
+		fmt.Printf("MACHINERY-FAILURE property=%s: %d inconclusive obligations, %d unsupported paths: the bound was not decided (nothing is reported as held)\n", id, unk, unsup)
+		return 2
 	}
 	return 0
 }
@@ -472,4 +495,15 @@ func readableModel(m map[string]string) map[string]string {
 // scheduleDependent: assertion ids whose counterexamples depend on the goroutine schedule, not only on the input.
 func scheduleDependent(aid string) bool {
 	return strings.Contains(aid, "noleak") || strings.HasPrefix(aid, "deadlock@") || strings.Contains(aid, "ctxerr")
+}
+
+// evidenceBase: /verif, except in development runs against a scratch copy (VERIF_REPO), whose evidence and
+// counterexample files must not overwrite the ones of the registered checks.
+func evidenceBase() string {
+	if os.Getenv("VERIF_REPO") != "" {
+		d := filepath.Join(os.TempDir(), "verif-dev")
+		os.MkdirAll(d, 0o755)
+		return d
+	}
+	return verifDir
 }
